@@ -2895,8 +2895,119 @@ func rawTailProofRun(r *Rng) string {
 	return "sound"
 }
 
+// publishedTailExtensionRun: a FINALISED proof as it is published (encoded), then extended by hand on a decoded copy
+// with one more caveat of every kind - an ordinary one, a third-party caveat, a binding caveat - under every tail a holder
+// can derive from the encoded form (the published tail kept, chained from it, chained and finalised again).  No such
+// extension may verify, neither as a root under the discharge key nor as a discharge of the parent token.
+// (round 33: a verify that skips third-party caveats of a discharge - and with them the MAC step - accepted the
+// kept-tail extension by a third-party caveat when presented as a discharge.)
+func publishedTailExtensionRun(r *Rng) string {
+	for i := 0; i < 8; i++ {
+		key, ka := r.Bytes(32), r.Bytes(32)
+		loc, tpLoc := "https://api.fly.io/v1", "https://auth.example"
+		root, _ := macaroon.New(r.Bytes(8), loc, key)
+		c3, err := macaroon.NewCaveat3P(ka, tpLoc)
+		if err != nil || root.Add(c3) != nil {
+			return "harness-error"
+		}
+		if i%4 >= 2 {
+			root.Add(r.plainCav(1))
+		}
+		rootB := mustEnc(root)
+		rn, _ := ticketKey(ka, c3.Ticket)
+		_, dm, err := macaroon.DischargeTicket(ka, tpLoc, c3.Ticket)
+		if err != nil {
+			return "harness-error(discharge)"
+		}
+		if i%2 == 1 {
+			dm.Add(r.plainCav(1))
+		}
+		bound := i%3 == 0
+		if bound {
+			dm.Bind(rootB)
+		}
+		pub := mustEnc(dm) // finalised here
+		if m, err := macaroon.Decode(rootB); err == nil {
+			if _, err := m.Verify(key, [][]byte{pub}, nil); err != nil {
+				return "finalised-proof-refused"
+			}
+		}
+		other3, _ := macaroon.NewCaveat3P(r.Bytes(32), pick(r, []string{"https://other.example", tpLoc, ""}))
+		exts := []struct {
+			kind string
+			c    macaroon.Caveat
+		}{
+			{"plain", r.plainCav(0)},
+			{"3p", other3},
+			{"3p-same-ticket", &macaroon.Caveat3P{Location: tpLoc, VerifierKey: append([]byte{}, c3.VerifierKey...), Ticket: append([]byte{}, c3.Ticket...)}},
+			{"bind", &macaroon.BindToParentToken{}},
+			{"bind16", func() macaroon.Caveat { b := macaroon.BindToParentToken(r.Bytes(16)); return &b }()},
+		}
+		for _, e := range exts {
+			ce, err := encOne(e.c)
+			if err != nil {
+				continue
+			}
+			for _, tk := range []string{"kept", "chained", "chained-finalised", "finalised-again"} {
+				ext, err := macaroon.Decode(pub)
+				if err != nil {
+					return "harness-error(decode)"
+				}
+				ext.UnsafeCaveats.Caveats = append(ext.UnsafeCaveats.Caveats, e.c)
+				switch tk {
+				case "chained":
+					ext.Tail = hmacSum(ext.Tail, ce)
+				case "chained-finalised":
+					ext.Tail = finalizeSig(hmacSum(ext.Tail, ce))
+				case "finalised-again":
+					ext.Tail = finalizeSig(ext.Tail)
+				}
+				eb, err := ext.Encode()
+				if err != nil {
+					continue
+				}
+				if d, err := macaroon.Decode(eb); err == nil {
+					if _, err := d.Verify(rn, nil, nil); err == nil {
+						return "published-proof-extension-verified-as-a-root(" + e.kind + "," + tk + ")"
+					}
+				}
+				for _, ds := range [][][]byte{{eb}, {eb, pub}, {pub, eb}} {
+					if m, err := macaroon.Decode(rootB); err == nil {
+						cs, err := m.Verify(key, ds, nil)
+						if err != nil {
+							continue
+						}
+						// with the genuine proof alongside, the parent may verify THROUGH the genuine one; the extension
+						// itself must not be what was accepted: its extra caveat must not be among the results
+						if len(ds) == 1 {
+							return "published-proof-extension-accepted-as-a-discharge(" + e.kind + "," + tk + ")"
+						}
+						if e.kind == "plain" {
+							for _, c := range cs.Caveats {
+								if cb, err := encOne(c); err == nil && string(cb) == string(ce) {
+									dup := false
+									for _, own := range append(append([]macaroon.Caveat{}, root.UnsafeCaveats.Caveats...), dm.UnsafeCaveats.Caveats...) {
+										if ob, err := encOne(own); err == nil && string(ob) == string(ce) {
+											dup = true
+										}
+									}
+									if !dup {
+										return "published-proof-extension-caveat-returned(" + tk + ")"
+									}
+								}
+							}
+						}
+					}
+				}
+			}
+		}
+	}
+	return "sound"
+}
+
 func famProof(r *Rng, o *Out, tier string) {
 	o.emit("(const sound)", rawTailProofRun(r))
+	o.emit("(const sound)", publishedTailExtensionRun(r))
 	n := 600
 	if tier == "thorough" {
 		n = 6000
